@@ -58,6 +58,91 @@ func vMsPrefix(hold bool) string {
 	return "C05"
 }
 
+// vMswFollower: a replicated (journalled) millisecond hold on a node that is NOT the leader must not be ended by the node's own
+// clock (C10): after the park it is either re-armed 30 s ahead (value < 3000) or handed to the second wheel, where the sweep defers it too.
+func vMswFollower(t *testing.T) {
+	out := vOpen("mswf")
+	defer out.close()
+	seed := int64(vEnvInt("VERIF_SEED", 1))
+	r := rand.New(rand.NewSource(seed))
+	n := vEnvInt("VERIF_N", 12)
+	vFastPark = true
+	v := vNewSeq(1, 0xff)
+	rec := &vMsRec{got: map[int][]vMsReply{}}
+	v.onReply = func(rp vReply) { rec.add(rp.req, rp.result) }
+	req, key := 100, 5000
+	for i := 0; i < n; i++ {
+		T := []int{3, 20, 60, 150, 3000, 3007, 6020}[r.Intn(7)]
+		if ft := vEnvInt("VERIF_MS_T", -1); ft >= 0 {
+			T = ft
+		}
+		key++
+		req += 3
+		start := v.db.currentTime
+		replay := map[string]interface{}{"mode": "mswf", "kind": "follower", "T": T, "seed": seed, "case": i}
+		_ = v.conns[0].ProcessLockCommand(vMsCmd(protocol.COMMAND_LOCK, req, req, key, 0, 0, 0x400, uint16(T)))
+		// make it what a follower holds: a journalled hold, on a node that is not the leader
+		m := v.db.GetLockManager(&protocol.LockCommand{LockKey: vId16(key)})
+		ok := false
+		if m != nil {
+			m.glock.Lock()
+			if m.currentLock != nil && m.currentLock.command != nil && vInt16(m.currentLock.command.RequestId) == req {
+				m.currentLock.isAof = true
+				ok = true
+			}
+			m.glock.Unlock()
+		}
+		if !ok {
+			out.emit(fmt.Sprintf("# mswf %d %d", start, T), "# hold-not-found")
+			continue
+		}
+		v.db.status = STATE_FOLLOWER
+		time.Sleep(time.Duration(T%3000+70) * time.Millisecond)
+		for w := 0; w < 300 && vMsPending(v.db); w++ {
+			time.Sleep(10 * time.Millisecond)
+		}
+		ended := func() bool {
+			for _, g := range rec.get(req) {
+				if g.result == protocol_RESULT_EXPRIED {
+					return true
+				}
+			}
+			return false
+		}
+		holdExp := func() (int64, bool) {
+			for _, h := range v.keySnap(key).holds {
+				if h.req == req {
+					return h.expT, true
+				}
+			}
+			return 0, false
+		}
+		obs := ""
+		e, live := holdExp()
+		if T < 3000 {
+			obs = "fire"
+		} else {
+			obs = fmt.Sprintf("second:%d", e)
+			// the second wheel reaches the deadline: the sweep must defer as well
+			d0 := e
+			for k := 0; k < T/1000+3 && live && !ended() && e == d0; k++ {
+				v.tick()
+				e, live = holdExp()
+			}
+		}
+		if ended() || !live {
+			out.monitor("C10:follower-ended-replicated-hold:millisecond", fmt.Sprintf("a replicated hold with %d ms on a non-leader node was ended by the node's own clock (EXPRIED sent: %v, hold still present: %v)", T, ended(), live), replay)
+			obs += " ended"
+		} else {
+			obs += fmt.Sprintf(" defer:%d", e-v.db.currentTime)
+		}
+		out.stat("follower")
+		out.emit(fmt.Sprintf("mswf %d %d", start, T), obs)
+		v.db.status = STATE_LEADER
+		_ = v.conns[0].ProcessLockCommand(vMsCmd(protocol.COMMAND_UNLOCK, req+2, req, key, 0, 0, 0, 0))
+	}
+}
+
 func vMsKinds() []bool {
 	switch os.Getenv("VERIF_MS_KIND") {
 	case "wait":
@@ -391,4 +476,5 @@ func vMsRealRun(t *testing.T) {
 func init() {
 	vModes["msw"] = vMswRun
 	vModes["msreal"] = vMsRealRun
+	vModes["mswf"] = vMswFollower
 }
